@@ -432,6 +432,17 @@ Eval vm_compute in map (fun k => (display_name k, display_parens k)) all_kinds.
     return _names_cache
 
 
+def workers_for_memory(per_worker_gb=1.5):
+    """number of evaluator processes to run side by side: one per core, but no more than the memory available right now carries (a
+    shard of long big-period cases needs about 1 GB; an evaluator killed for lack of memory would look like a broken check)"""
+    try:
+        with open("/proc/meminfo") as f:
+            kb = [int(l.split()[1]) for l in f if l.startswith("MemAvailable:")][0]
+        return max(2, min(NCPU, int(kb / 1048576.0 / per_worker_gb)))
+    except Exception:  # noqa
+        return NCPU
+
+
 def coq_eval(src, tag, timeout=1200):
     d = RUNDIR
     os.makedirs(d, exist_ok=True)
@@ -439,6 +450,11 @@ def coq_eval(src, tag, timeout=1200):
     with open(path, "w") as f:
         f.write(src)
     rc, out = sh(["timeout", str(timeout), "coqc", "-noglob", "-Q", COQ, "TA", path], cwd=d, timeout=timeout + 30)
+    if rc != 0 and rc != 124:
+        # a transient failure of the evaluator process itself (killed under memory pressure, a full scratch disk) must not be
+        # reported as a finding about the code: evaluate once more before giving up (a deterministic failure fails again)
+        time.sleep(2.0)
+        rc, out = sh(["timeout", str(timeout), "coqc", "-noglob", "-Q", COQ, "TA", path], cwd=d, timeout=timeout + 30)
     for ext in (".vo", ".vok", ".vos", ".glob"):
         try:
             os.remove(path[:-2] + ext)
@@ -449,7 +465,7 @@ def coq_eval(src, tag, timeout=1200):
     except OSError:
         pass
     if rc != 0:
-        raise BuildError("coqc failed on %s:\n%s" % (path, out[-3000:]))
+        raise BuildError("coqc failed (exit status %s) on %s:\n%s" % (rc, path, out[-3000:]))
     return out
 
 
@@ -500,7 +516,7 @@ def coq_check_cases(cases, tag, checker="check_case", per_shard=None, timeout=15
         nums = [int(x) for x in re.findall(r"\d+", body)]
         return nums
 
-    with ThreadPoolExecutor(max_workers=NCPU) as ex:
+    with ThreadPoolExecutor(max_workers=workers_for_memory()) as ex:
         res = list(ex.map(run, enumerate(shards)))
     flat = [None] * n
     for b, nums in zip(bins, res):
